@@ -344,6 +344,7 @@ class Sim:
         self.counters = {}
         self.stalls = {}  # (cid, side) -> [(from_seq, seconds)]
         self.tasks = []
+        self.stall_once = None
         self.role_k = {}  # role -> number of disk events so far
 
     # -- bookkeeping
@@ -429,6 +430,11 @@ class Sim:
                 self.count("segmentation", len(pieces) - 1)
         for piece in pieces:
             lat = self.latency(src.cid, src.side, src.seq)
+            so = self.stall_once
+            if so is not None and kind == "data" and src.side == so[0]:
+                lat += so[1]  # a slow node: this direction delivers nothing for so[1] seconds
+                self.stall_once = None
+                self.count("stall")
             for (frm, secs) in self.stalls.get((src.cid, src.side), ()):
                 if src.seq == frm:
                     lat += secs
